@@ -137,14 +137,15 @@ Proof.
   repeat match goal with |- context [if ?c then _ else _] => destruct c end; eexists; reflexivity.
 Qed.
 
-Lemma to_hz_total i : exists hz, to_hz i = Ok hz.
+(* SampleRateIndex is a uint8: all 256 values by a kernel-evaluated sweep, whatever shape the
+   generated body of ToHz has (table inside the function or at package level, len() or a constant) *)
+Lemma to_hz_total_sweep : forallb (fun i => is_ok (to_hz i)) (n_range 0 256) = true.
+Proof. vm_compute. reflexivity. Qed.
+
+Lemma to_hz_total i : i < 256 -> exists hz, to_hz i = Ok hz.
 Proof.
-  unfold to_hz, callN, aac_SampleRateIndex_ToHz.
-  match goal with |- context [len_Z ?l] => change (len_Z l) with 17%Z end.
-  destruct (Z.geb_spec (Z.of_N i) 17) as [H|H]; [eexists; reflexivity|].
-  assert (E : In i (n_range 0 17)) by (apply n_range_in; lia).
-  cbn [n_range N.add] in E. cbn in E.
-  repeat (destruct E as [<-|E]; [eexists; reflexivity|]). destruct E.
+  intros H. pose proof (sweep256 _ to_hz_total_sweep i H) as A. cbv beta in A.
+  destruct (to_hz i) as [hz|e|s]; try discriminate. exists hz. reflexivity.
 Qed.
 
 Lemma validate_no_panic a s : validate a <> Panic s.
@@ -424,14 +425,14 @@ Proof.
   cbn in E. repeat (destruct E as [<-|E]; [reflexivity|]). destruct E.
 Qed.
 
-Lemma to_hz_undefined i : 12 < i -> to_hz i = Ok 0.
+Lemma to_hz_undefined_sweep :
+  forallb (fun i => match to_hz i with Ok 0 => true | _ => false end) (n_range 13 243) = true.
+Proof. vm_compute. reflexivity. Qed.
+
+Lemma to_hz_undefined i : 12 < i -> i < 256 -> to_hz i = Ok 0.
 Proof.
-  intros H. destruct (N.lt_ge_cases i 17) as [Hlt|Hge].
-  - assert (E : In i (n_range 13 4)) by (apply n_range_in; lia).
-    cbn in E. repeat (destruct E as [<-|E]; [reflexivity|]). destruct E.
-  - unfold to_hz, callN, aac_SampleRateIndex_ToHz.
-    match goal with |- context [len_Z ?l] => change (len_Z l) with 17%Z end.
-    destruct (Z.geb_spec (Z.of_N i) 17) as [G|G]; [reflexivity|lia].
+  intros H1 H2. pose proof (sweep_range _ 13 243 to_hz_undefined_sweep i ltac:(lia) ltac:(lia)) as A. cbv beta in A.
+  destruct (to_hz i) as [[|p]|e|s]; try discriminate. reflexivity.
 Qed.
 
 (* ---- totality: no input makes a decoder panic ---- *)
